@@ -12,7 +12,7 @@ class C14(WigBedProp):
             "BufWriters spill mid-stream) and inputs of 3–5 chromosomes with 2–7 KiB each (tails below the BufWriter capacity "
             "that exceed it together), inputs of 3–4 chromosomes of 10–40 KiB each (a staged chromosome is copied into the destination "
             "at the hand-over), all option records; for each: the recorded sequence of destination operations, every "
-            "prefix replayed into an empty buffer and opened with the real readers (rejected / complete / partial: all chromosomes, "
+            "prefix replayed into an empty buffer AND into a buffer that already holds an older complete file of the same kind, and opened with the real readers (rejected / complete / partial: all chromosomes, "
             "every record and every zoom record compared with the complete file), and the write repeated with the k-th destination "
             "operation failing, for every k and operation kind. Non-trivial = every case (each contributes all its prefixes and "
             "faults; the counts are in the histogram)")
@@ -128,6 +128,12 @@ class C14(WigBedProp):
                 seen_c = True
             elif seen_c:
                 return "a later prefix is rejected after an earlier one was complete"
+        po = (bbgen.first_line(il, "PREFIXOLD") or "").split(" ")[1:]
+        if "P" in po:
+            k = po.index("P")
+            ops = (bbgen.first_line(il, "OPS") or "").split(" ")[2:]
+            return (f"destination that already held an older complete file: after the first {k} destination operations (the last one "
+                    f"being `{ops[k - 1] if 0 < k <= len(ops) else '?'}`) it opens but serves neither the old nor the new file completely")
         fv = f.split(" ")[1:]
         for k, v in enumerate(fv):
             if v == "S":
@@ -142,6 +148,10 @@ class C14(WigBedProp):
             p = bbgen.first_line(il, "PREFIX")
             f = bbgen.first_line(il, "FAULT")
             npre += len(p.split(" ")) - 1 if p else 0
+            po = bbgen.first_line(il, "PREFIXOLD")
+            npre += len(po.split(" ")) - 1 if po else 0
+            if po:
+                rep.tag("reused_destination_prefixes", len(po.split(" ")) - 1)
             nfault += len(f.split(" ")) - 1 if f else 0
             if f and " p" in f:
                 rep.tag("panic_on_injected_failure", f.count(" p"))
